@@ -42,6 +42,18 @@ CHECKS = {
         text="All statement lists with <= 4 / <= 6 nodes over blocks, if/else/else-if with every branch form (goto, braced, naked statement, naked loop, naked if), loop, goto, assignment, label are compiled; the code set {E800,E801,E840} and the number of L1800 lints must equal the model's.",
         note="What a naked (E840) branch contains is not judged separately (the statement is poisoned as a whole).",
         design="5 C06"),
+    "C07": dict(
+        category="exploration",
+        technique="runtime monitor: type-rule assertions over the resolved tree of every accepted input (hooked in the worker) plus a verdict table of single type-breaking edits",
+        text="(1) generated well-typed programs must be accepted; (2) one program per (edit kind x primitive type pair x operator) - operand swap, operator outside its class, assignment/initialisation/argument/return mismatch, argument count, missing/excess &, illegal cast - must be rejected with its documented E5xx code; (3) a monitor walks the resolved tree of every accepted input (generated, corpus, import closures, accepted mutants) and asserts identical operand/assignment/argument/return types, operator classes, legal cast pairs and that only array/struct view coercions are implicit.",
+        note="The monitor compares types structurally and is independent of the typer. Recorded-not-judged: arithmetic on char8, ! on bool, char8/u8 aliasing of string arrays.",
+        design="5 C07"),
+    "C08": dict(
+        category="exploration",
+        technique="runtime monitor: non-interference checker over bracketed call traces of executed generated programs, plus a verdict table",
+        text="A table of programs writes through every parameter kind, to constants, copies whole arrays/views/structs and passes pointer arguments with and without &: verdicts must match E530-E533/E513. Generated programs bracket every call with prints of all caller locals; after execution a checker that does not use the reference interpreter asserts that a variable changed across a call only if the caller wrote & on it (or on a pointer that may point to it).",
+        note="Points-to sets of the generated caller are flow-insensitive (sound over-approximation of the legitimate channel).",
+        design="5 C08"),
 }
 
 
